@@ -547,7 +547,40 @@ def r03_9(chk):
     chk.floor("R03.9", 1, "IndelMap.__add__")
 
 
+def _one_element_slices(fn):
+    """[(subscript, safe?)] for `self[x : x + 1 ...]` delegations of an integer index x (a parameter of fn)"""
+    ps = set(params_of(fn)) - {"self"}
+    out = []
+    for sub in ast.walk(fn):
+        if isinstance(sub, ast.Subscript) and norm(sub.value) == "self" and isinstance(sub.slice, ast.Slice) and sub.slice.lower is not None and sub.slice.upper is not None and isinstance(sub.slice.lower, ast.Name) and sub.slice.lower.id in ps:
+            x = sub.slice.lower.id
+            up = sub.slice.upper
+            plain = isinstance(up, ast.BinOp) and isinstance(up.op, ast.Add) and norm(up.left) == x and norm(up.right) == "1"
+            guarded = isinstance(up, ast.BoolOp) and isinstance(up.op, ast.Or) and norm(up.values[-1]) == "None" and norm(up.values[0]) == f"{x} + 1"
+            normalised = any(isinstance(st, (ast.Assign, ast.AugAssign)) and x in {n.id for n in ast.walk(st.targets[0] if isinstance(st, ast.Assign) else st.target) if isinstance(n, ast.Name)} for st in ast.walk(fn))
+            if plain or guarded:
+                out.append((sub, guarded or normalised))
+    return out
+
+
+def r03_10(chk):
+    chk.rule("R03.10", "an integer index on an aligned sequence / gap map selects one position for EVERY index a string accepts: where the int overload of __getitem__ delegates to a one-element slice it is spelt `self[i : i + 1 or None]` (or i is first made non-negative) -- `self[i : i + 1]` is the empty slice [-1:0] for i == -1, so aln[-1] has empty rows and take_positions([.., -1]) loses the last column")
+    n = 0
+    for rel, cname in ((ALN, "Aligned"), ("core/location.py", "IndelMap")):
+        m = chk.repo.module(rel)
+        ci = m.cls(cname)
+        fns = [st for st in ci.node.body if isinstance(st, ast.FunctionDef) and (st.name == "__getitem__" or (st.name == "_" and any("__getitem__.register" in norm(d) for d in st.decorator_list)))]
+        for fn in fns:
+            for sub, safe in _one_element_slices(fn):
+                n += 1
+                chk.decide(safe, "R03.10", key(m, f"{cname}.__getitem__[int]", "one-element slice correct for -1"), m.loc(sub), f"`{norm(sub)}`", f"`{norm(sub)}` is empty for the index -1 (its stop is 0): {cname}[-1] selects nothing where the string model and the array-backed class give the last position")
+    if n < 2:
+        raise AnalysisError("R03.10: the int overloads of Aligned / IndelMap __getitem__ were not found")
+    chk.floor("R03.10", 2, "Aligned and IndelMap")
+
+
 def run(chk):
+    r03_10(chk)
     r03_9(chk)
     r03_7(chk)
     r03_8(chk)
